@@ -1,31 +1,37 @@
 /-
 C01 — kernel-checked witnesses.
 
-Known finding C01-bool-postfix-incdec (known_findings.json): postfix `++`/`--` on a `_Bool` operand.
-parse.c `new_inc_dec` computes `(T)((x += addend) - addend)`; for `_Bool` the `+=` saturates through the conversion to
-`_Bool`, so the subtraction does not give back the old value: `_Bool b = 1; b++` yields 0 (C11 6.5.2.4p2: 1),
-`_Bool b = 0; b--` yields 1 (C11: 0).  The stored value is right in both cases.
+Known finding C01-bool-postfix-incdec (known_findings.json): postfix `++`/`--` on a `_Bool` operand that is a bit-field
+member or `_Atomic`.  For such operands parse.c `new_inc_dec` computes `(T)((x += addend) - addend)`; for `_Bool` the `+=`
+saturates through the conversion to `_Bool`, so the subtraction does not give back the old value:
+`struct {_Bool b:1;} s = {1}; s.b++` yields 0 (C11 6.5.2.4p2: 1), `s.b--` on 0 yields 1 (C11: 0).  The stored value is
+right in both cases.  (Ordinary `_Bool` objects take the temporary route since the fix in /repo and are correct:
+`C01_incdec_partial`.)
 -/
 import ChibiVerif.Props.C01
 
 namespace ChibiVerif.Findings.C01
 open ChibiVerif.C01 ChibiVerif.Props.C01 ChibiVerif.Spec.IntSpec
 
-/-- `_Bool b = 1; b++`: chibicc's formula gives value 0 (stored 1); C11 gives value 1 (stored 1) -/
+/-- `_Bool` bit-field holding 1, `++`: chibicc's formula gives value 0 (stored 1); C11 gives value 1 (stored 1) -/
 theorem C01_witness_bool_postinc :
-    chibiPostfix .bool 1 1 = some (0, 1) ∧ specPostfix .bool 1 1 = some (1, 1) := by decide
+    chibiPostfix .bool false 1 1 = some (0, 1) ∧ specPostfix .bool 1 1 = some (1, 1) := by decide
 
-/-- `_Bool b = 0; b--`: chibicc's formula gives value 1 (stored 1); C11 gives value 0 (stored 1) -/
+/-- `_Bool` bit-field holding 0, `--`: chibicc's formula gives value 1 (stored 1); C11 gives value 0 (stored 1) -/
 theorem C01_witness_bool_postdec :
-    chibiPostfix .bool 0 (-1) = some (1, 1) ∧ specPostfix .bool 0 (-1) = some (0, 1) := by decide
+    chibiPostfix .bool false 0 (-1) = some (1, 1) ∧ specPostfix .bool 0 (-1) = some (0, 1) := by decide
+
+/-- the repaired case: an ordinary `_Bool` object -/
+theorem C01_repaired_bool_object :
+    chibiPostfix .bool true 1 1 = some (1, 1) ∧ chibiPostfix .bool true 0 (-1) = some (0, 1) := by decide
 
 /-- the witness lies in the region the `_partial` theorem excludes -/
-theorem C01_witness_in_region : BoolPostfixIncDec .bool := rfl
+theorem C01_witness_in_region : BoolPostfixIncDec .bool false := ⟨rfl, rfl⟩
 
 /-- the full statement fails (so `C01_incdec_partial` cannot be strengthened without a change to new_inc_dec) -/
 theorem C01_finding_bool_postfix_incdec : ¬ C01_incdec_Statement := by
   intro h
-  have h1 := h .bool 1 1 (by decide) (Or.inl rfl) (1, 1) (by decide)
+  have h1 := h .bool false 1 1 (by decide) (Or.inl rfl) (1, 1) (by decide)
   revert h1
   decide
 
